@@ -11,6 +11,7 @@ sys.path.insert(0, HERE)
 DRIVERS = {
     "C01": ("gbv.props.sep", {}), "C02": ("gbv.props.sep", {}), "C07": ("gbv.props.sep", {}),
     "C08": ("gbv.props.sep", {}),
+    "C09": ("gbv.props.c09", {}),
     "C10": ("gbv.props.c10", {}),
 }
 
